@@ -378,6 +378,28 @@ def corpus(vf):
         for kind in ('field', 'kernel', 'chain'):
             add('const_scope_let(%d,%s)' % (d, kind), lambda d=d, kind=kind: const_scope_let(d, kind))
 
+    def let_higher_derivative(d, kind):
+        # a let-variable differentiated twice in ONE call (times=2), next to the variable itself and its first derivative
+        V = vf.VForm(d, arity=1); v = V.basisfuns(); f = V.input('f'); g = V.input('g')
+        w = V.let('w', f - g * g)
+        if kind == 'dx2': e = w.dx(0, times=2) + w
+        elif kind == 'Dx2': e = vf.Dx(w, d - 1, 2) - w.dx(0)
+        else: e = w.dx(0).dx(d - 1) + w.dx(0, times=2)
+        V.add(e * v * vf.dx); return V
+
+    def nonsquare_matmul(d, kind):
+        # matrix products with a non-square left factor (fewer rows than columns, and more)
+        V = vf.VForm(d); u, v = V.basisfuns()
+        A = V.input('A', shape=(2, 3)); B = V.input('B', shape=(3, 2))
+        M = vf.dot(A, B) if kind == 'wide' else vf.dot(B, A)
+        V.add((M[0, 0] + M[1, 0] * M[1, 1] + (M[2, 1] if kind != 'wide' else 0)) * u * v * vf.dx); return V
+
+    for d in (1, 2):
+        for kind in ('dx2', 'Dx2', 'mixed'):
+            add('let_higher_derivative(%d,%s)' % (d, kind), lambda d=d, kind=kind: let_higher_derivative(d, kind))
+        for kind in ('wide', 'tall'):
+            add('nonsquare_matmul(%d,%s)' % (d, kind), lambda d=d, kind=kind: nonsquare_matmul(d, kind))
+
     def two_space(d, kind):
         # Petrov-Galerkin: trial functions from space 0, test functions from space 1 (different knot vectors / degrees on a common mesh)
         if kind == 'mass':
